@@ -8,6 +8,9 @@
 //!  * `uprng`     *_with_u_prng variants: same generator state => same mask, different state => different mask, generator advances
 //!  * `ckks`      CKKSEncoder -> encrypt -> decrypt -> decode at every level, scale grid, slot alphabets, all modes
 //!  * `tinyprime` chains that contain a coefficient prime <= 21 (smaller than the error range), real sampler
+//!  * `manyprimes` the oracles above on chains of 1..18 primes at N = 4 / 8 (every mode, every level, 60-bit and multi-word plain lift)
+//!  * `sizes`     fast (O(N log N)) reference: 1..18 primes at N = 4 / 8 next to the schoolbook reference, N = 16..1024 (thorough
+//!                ..16384) with 2..17 primes, structured plaintext / slot families (every position, every length), all modes, all levels
 //!
 //! Oracles per ciphertext: `is_valid_for`, metadata, decryption equals the plaintext exactly (BFV/BGV) / within the a-priori
 //! bound (CKKS, at coefficient level exactly and at slot level), exact phase noise (schoolbook c0 + c1*s, CRT, centring) within
@@ -17,12 +20,16 @@
 use crate::engine::*;
 use crate::he::{self, ct_fingerprint, ct_meta, Kit, Noise, ParamSpec, Scheme};
 use crate::refmodel::bigu::*;
+use crate::refmodel::ntt::{fast_intt, fast_ntt};
 use crate::refmodel::rlwe::*;
 use heathcliff::util::{BlakeRNG, PRNGSeed};
 use heathcliff::{CKKSEncoder, Ciphertext, ExpandSeed, ParmsID, Plaintext, ValCheck, PARMS_ID_ZERO};
 use num_complex::Complex;
 use rand::SeedableRng;
 use serde::{Deserialize, Serialize};
+use std::cell::RefCell;
+use std::collections::HashMap;
+use std::rc::Rc;
 use std::time::Duration;
 
 pub fn describe(rep: &Report) {
@@ -38,7 +45,8 @@ pub fn describe(rep: &Report) {
     rep.assume("side condition checked on every ciphertext (stricter than the statement, protects the judged/skipped split): the exact phase noise (schoolbook c0+c1*s, CRT, centred) stays within the a-priori bound; BFV message scaling may be off by (t+1)/(2t) as in floor((q mod t)*m + floor((t+1)/2))/t)");
     rep.assume("the NTT ordering (value i = evaluation at root^(2*bitrev(i)+1), root = NTTTables::root()) is taken from C09; the reference inverts it by schoolbook evaluation and cross-checks it on the ternary secret key of every case");
     rep.assume("chain structure (which levels exist, which prime is dropped) is read from the HeContext (C13 judges it); CKKS encoding/decoding are used as black boxes whose combined error must stay inside the stated bound (C12 judges them separately)");
-    rep.assume("outside the bounds: N > 8 (16 thorough), more than 4 (6) primes, primes not among the largest of their bit size, plaintext alphabets beyond boundary values for t^N > 4096, parameter sets whose a-priori bound lies within 2^-10 of the decryption threshold, CKKS decode cancellation when the low word of q is smaller than a negative coefficient (needs a searched-for chain; C12)");
+    rep.assume("production sizes (sections manyprimes, sizes): the fast reference computes exactly the same quantities as the schoolbook one — phase through refmodel::ntt::{fast_ntt, fast_intt} (validated against the transform by definition in the self-test), CRT skipped for a coefficient whose residues are those of one integer d with 2|d| < min q_i (then d is the centred value), BFV noise t*phase - q*m rewritten as t*(phase - M) + (t*M - q*m) with M = floor((q*m + floor((t+1)/2))/t) — and both are run and compared on every ciphertext for N <= 16; plaintexts are structured families (a monomial at every position / at the marks, dense plaintexts of every length, constant / alternating / ramp / generic), not products");
+    rep.assume("outside the bounds: the full parameter sweep (prime orders, every kind of plain modulus) beyond N = 8 (16 thorough) and 4 (6) primes — above that the chain shapes are 60-bit only, 40/50/60 ascending and 60/20/50/30/40 mixed, up to 18 primes, N up to 1024 (16384 thorough); primes not among the largest of their bit size; plaintext alphabets beyond boundary values for t^N > 4096; parameter sets whose a-priori bound lies within 2^-10 of the decryption threshold; CKKS decode cancellation when the low word of q is smaller than a negative coefficient (needs a searched-for chain; C12)");
 }
 
 // ------------------------------------------------------------------------------------------
@@ -166,6 +174,13 @@ struct World {
     t: u64,
     /// magnitudes of the small polynomials under the case's noise script
     mags: Mags,
+    /// production-size reference: O(N log N) transforms and the small-residue shortcut of the CRT (exactly the same values as
+    /// the schoolbook reference, which is run next to it for N <= 16)
+    fast: bool,
+    /// fast reference: transform of the secret key per (modulus, root)
+    shat: RefCell<HashMap<(u64, u64), Rc<Vec<u64>>>>,
+    /// fast reference, BFV: (floor(q/t) mod q_i, q mod t) per level
+    bfvc: RefCell<HashMap<usize, Rc<(Vec<u64>, u64)>>>,
 }
 
 fn mag(x: Noise, max: u64) -> u64 {
@@ -179,6 +194,11 @@ fn mag(x: Noise, max: u64) -> u64 {
 impl World {
     /// Context + keys under the key-generation part of the noise combo; Err(reason) when the library rejects the parameters.
     fn build(spec: &ParamSpec, nc: &NoiseCombo, seed: u64, tag: u64) -> Result<World, String> {
+        World::build_with(spec, nc, seed, tag, false)
+    }
+
+    /// `fast`: use the O(N log N) reference (needed from N = 32 on; cross-checked against the schoolbook one for N <= 16)
+    fn build_with(spec: &ParamSpec, nc: &NoiseCombo, seed: u64, tag: u64, fast: bool) -> Result<World, String> {
         he::env(seed, tag, nc.ks.mode(), nc.ke.mode());
         let kit = match guard(|| Kit::new(spec)) {
             Ok(Ok(k)) => k,
@@ -210,7 +230,20 @@ impl World {
         let mut s = vec![0i64; n];
         for (which, mi) in [(0usize, 0usize), (1, key.moduli.len() - 1)] {
             let q = key.moduli[mi];
-            let c = naive_intt(&kit.sk.data()[mi * n..(mi + 1) * n], key.roots[mi], q);
+            let sk_i = &kit.sk.data()[mi * n..(mi + 1) * n];
+            let c = if fast {
+                // a table that belongs to another modulus cannot define an ordering
+                if pow_mod(key.roots[mi], n as u64, q) != q - 1 {
+                    return Err(format!("REFMODEL: NTTTables::root() = {} of key-level table {mi} is not a primitive 2N-th root modulo the {mi}-th coefficient modulus {q}", key.roots[mi]));
+                }
+                let f = fast_intt(sk_i, key.roots[mi], q);
+                if n <= 16 && f != naive_intt(sk_i, key.roots[mi], q) {
+                    return Err("REFMODEL: fast and schoolbook inverse transform disagree".into());
+                }
+                f
+            } else {
+                naive_intt(sk_i, key.roots[mi], q)
+            };
             for j in 0..n {
                 let v = if c[j] == 0 {
                     0
@@ -230,7 +263,7 @@ impl World {
         }
         let t = spec.t;
         let mags = Mags { s: mag(nc.ks, 1), u: mag(nc.eu, 1), bk: mag(nc.ke, ERR_MAX), be: mag(nc.ee, ERR_MAX) };
-        Ok(World { kit, levels, first, s, sch: sch(spec.scheme), n, t, mags })
+        Ok(World { kit, levels, first, s, sch: sch(spec.scheme), n, t, mags, fast, shat: RefCell::new(HashMap::new()), bfvc: RefCell::new(HashMap::new()) })
     }
 
     fn first_level(&self) -> &LevelInfo {
@@ -245,7 +278,142 @@ impl World {
     /// phase of a size-2 ciphertext at level li: per-modulus components in coefficient form
     fn phase(&self, li: usize, ct: &Ciphertext) -> Vec<Vec<u64>> {
         let l = &self.levels[li].lvl;
-        l.phase_components(ct.poly(0), ct.poly(1), ct.is_ntt_form(), &self.s)
+        if !self.fast {
+            return l.phase_components(ct.poly(0), ct.poly(1), ct.is_ntt_form(), &self.s);
+        }
+        let n = self.n;
+        let ntt = ct.is_ntt_form();
+        let (c0, c1) = (ct.poly(0), ct.poly(1));
+        let f: Vec<Vec<u64>> = (0..l.moduli.len())
+            .map(|i| {
+                let (q, psi) = (l.moduli[i], l.roots[i]);
+                let sh = self.s_hat(q, psi);
+                let (a0, a1) = (&c0[i * n..(i + 1) * n], &c1[i * n..(i + 1) * n]);
+                if ntt {
+                    let y: Vec<u64> = (0..n).map(|j| add_mod(a0[j] % q, mul_mod(a1[j] % q, sh[j], q), q)).collect();
+                    fast_intt(&y, psi, q)
+                } else {
+                    let f1 = fast_ntt(a1, psi, q);
+                    let y: Vec<u64> = (0..n).map(|j| mul_mod(f1[j], sh[j], q)).collect();
+                    let p = fast_intt(&y, psi, q);
+                    (0..n).map(|j| add_mod(a0[j] % q, p[j], q)).collect()
+                }
+            })
+            .collect();
+        if n <= 16 && f != l.phase_components(c0, c1, ntt, &self.s) {
+            panic!("REFMODEL: fast and schoolbook phase disagree");
+        }
+        f
+    }
+
+    /// fast reference: forward transform of the secret key modulo q in the ordering defined by psi
+    fn s_hat(&self, q: u64, psi: u64) -> Rc<Vec<u64>> {
+        if let Some(v) = self.shat.borrow().get(&(q, psi)) {
+            return v.clone();
+        }
+        let sq: Vec<u64> = self.s.iter().map(|&x| if x >= 0 { x as u64 % q } else { q - ((-x) as u64 % q) }).collect();
+        let v = Rc::new(fast_ntt(&sq, psi, q));
+        self.shat.borrow_mut().insert((q, psi), v.clone());
+        v
+    }
+
+    /// residues (component-major) -> coefficient form per modulus
+    fn coeff_form(&self, li: usize, poly: &[u64], ntt: bool) -> Vec<Vec<u64>> {
+        let l = &self.levels[li].lvl;
+        if !self.fast || !ntt {
+            return l.coeff_form(poly, ntt);
+        }
+        let n = self.n;
+        let f: Vec<Vec<u64>> = (0..l.moduli.len()).map(|i| fast_intt(&poly[i * n..(i + 1) * n], l.roots[i], l.moduli[i])).collect();
+        if n <= 16 && f != l.coeff_form(poly, ntt) {
+            panic!("REFMODEL: fast and schoolbook inverse transform disagree");
+        }
+        f
+    }
+
+    /// CRT + centring of per-modulus coefficient vectors. Fast reference: when the residues of a coefficient are the residues of
+    /// one integer d with 2|d| < min q_i, then d is the centred value (no multi-precision arithmetic); CRT otherwise.
+    fn centered(&self, li: usize, comps: &[Vec<u64>]) -> Vec<BigI> {
+        let l = &self.levels[li].lvl;
+        if !self.fast {
+            return l.compose_centered(comps);
+        }
+        let minq = *l.moduli.iter().min().unwrap() as i128;
+        let f: Vec<BigI> = (0..self.n)
+            .map(|j| {
+                let q0 = l.moduli[0];
+                let c0 = comps[0][j] % q0;
+                let d: i128 = if 2 * c0 as u128 >= q0 as u128 { c0 as i128 - q0 as i128 } else { c0 as i128 };
+                if 2 * d.abs() < minq && (0..l.moduli.len()).all(|i| d.rem_euclid(l.moduli[i] as i128) as u64 == comps[i][j] % l.moduli[i]) {
+                    BigI::from_i128(d)
+                } else {
+                    let res: Vec<u64> = comps.iter().map(|c| c[j]).collect();
+                    centered(&crt(&res, &l.moduli), &l.q)
+                }
+            })
+            .collect();
+        if self.n <= 16 && f != l.compose_centered(comps) {
+            panic!("REFMODEL: small-residue shortcut and CRT disagree");
+        }
+        f
+    }
+
+    /// BFV: W_j = centred_{tq}(t*phase_j - q*m_j) for every coefficient.
+    /// Fast reference: with M = floor((q*m + floor((t+1)/2)) / t) = floor(q/t)*m + floor(((q mod t)*m + floor((t+1)/2)) / t) one has
+    /// t*phase - q*m = t*(phase - M) + (t*M - q*m) (mod tq), where phase - M is small and t*M - q*m is a machine integer.
+    fn bfv_noise(&self, li: usize, comps: &[Vec<u64>], m: &[u64]) -> Vec<BigI> {
+        let l = &self.levels[li].lvl;
+        let t = self.t;
+        let slow = |j: usize, ph: &[BigU]| bfv_scaled_noise(&ph[j], m[j], t, &l.q);
+        if !self.fast {
+            let ph = l.compose_unsigned(comps);
+            return (0..self.n).map(|j| slow(j, &ph)).collect();
+        }
+        let cached = self.bfvc.borrow().get(&li).cloned();
+        let cst = match cached {
+            Some(c) => c,
+            None => {
+                let (qt, r) = l.q.divrem(&BigU::from_u64(t));
+                let c = Rc::new((l.moduli.iter().map(|&qi| qt.rem_u64(qi)).collect::<Vec<u64>>(), r.to_u64().unwrap()));
+                self.bfvc.borrow_mut().insert(li, c.clone());
+                c
+            }
+        };
+        let (qt, r) = (&cst.0, cst.1);
+        let thr = (t + 1) >> 1;
+        let n = self.n;
+        let mut rho = vec![0i128; n];
+        let mut d: Vec<Vec<u64>> = vec![vec![0u64; n]; l.moduli.len()];
+        for j in 0..n {
+            let num = r as u128 * m[j] as u128 + thr as u128;
+            let fix = num / t as u128;
+            rho[j] = thr as i128 - (num % t as u128) as i128;
+            for i in 0..l.moduli.len() {
+                let qi = l.moduli[i];
+                let e = add_mod(mul_mod(qt[i], m[j] % qi, qi), (fix % qi as u128) as u64, qi);
+                d[i][j] = sub_mod(comps[i][j], e, qi);
+            }
+        }
+        let dc = self.centered(li, &d);
+        let tq = l.q.mul_u64(t);
+        let tb = BigI::from_u(BigU::from_u64(t));
+        let f: Vec<BigI> = (0..n)
+            .map(|j| {
+                let x = dc[j].mul(&tb).add(&BigI::from_i128(rho[j]));
+                if x.mag.shl(1) < tq {
+                    x
+                } else {
+                    centered(&x.rem_u(&tq), &tq)
+                }
+            })
+            .collect();
+        if n <= 16 {
+            let ph = l.compose_unsigned(comps);
+            if (0..n).any(|j| f[j] != slow(j, &ph)) {
+                panic!("REFMODEL: BFV noise through the rounded message term and through multi-precision arithmetic disagree");
+            }
+        }
+        f
     }
 
     fn expect_ntt(&self) -> bool {
@@ -443,7 +611,11 @@ pub struct XCase {
 
 /// One encryption in `mode` of the BFV/BGV plaintext `pt`; returns the (expanded) ciphertext.
 fn encrypt_mode(w: &World, mode: Mode, pt: &Plaintext, seed: u64, item: u64, nc: &NoiseCombo) -> Result<Ciphertext, Bad> {
-    let li = w.first;
+    encrypt_mode_at(w, w.first, mode, pt, seed, item, nc)
+}
+
+/// as `encrypt_mode`; `li` = level the plaintext lives at (CKKS: the plaintext's own level; BFV/BGV: the first data level)
+fn encrypt_mode_at(w: &World, li: usize, mode: Mode, pt: &Plaintext, seed: u64, item: u64, nc: &NoiseCombo) -> Result<Ciphertext, Bad> {
     let enc = &w.kit.enc;
     let reset = || he::env(seed, item, nc.eu.mode(), nc.ee.mode());
     let pan = |what: &str, p: String| bad(format!("{what}-panic:{}", panic_class(&p)), format!("{what} succeeds on a valid plaintext"), p);
@@ -500,12 +672,12 @@ fn judge_exact(w: &World, li: usize, ct: &Ciphertext, m: &[u64], bound: &Bound, 
     let mut noise_class = 0u64;
     match w.sch {
         Sch::Bfv => {
-            let ph = l.lvl.compose_unsigned(&comps);
+            let wn = w.bfv_noise(li, &comps, m);
             // the library adds floor((q mod t)*m + floor((t+1)/2)) / t): off by at most (t+1)/(2t) from q*m/t
             let lim = bound.scale(w.t).plus_half_of(w.t + 1);
             for j in 0..w.n {
-                let wj = bfv_scaled_noise(&ph[j], m[j], w.t, &l.lvl.q);
-                if !lim.holds_for(&wj) {
+                let wj = &wn[j];
+                if !lim.holds_for(wj) {
                     return Err(bad(
                         "noise-exceeds-apriori-bound",
                         format!("|t*phase - q*m| <= t*v + (t+1)/2 = {:.1} (v = {:.2})", lim.to_f64(), bound.to_f64()),
@@ -516,7 +688,7 @@ fn judge_exact(w: &World, li: usize, ct: &Ciphertext, m: &[u64], bound: &Bound, 
             }
         }
         Sch::Bgv => {
-            let ph = l.lvl.compose_centered(&comps);
+            let ph = w.centered(li, &comps);
             let lim = bound.plus_half_of(w.t);
             for j in 0..w.n {
                 if !lim.holds_for(&ph[j]) {
@@ -618,7 +790,7 @@ fn prime_chain(n: usize, bits: &[usize]) -> Option<Vec<u64>> {
     let mut out: Vec<u64> = vec![];
     for &b in bits {
         let cnt = bits.iter().filter(|&&x| x == b).count();
-        let c: Vec<u64> = primes_1_mod(2 * n as u64, b, cnt + 2).into_iter().filter(|&p| p > 2 * ERR_MAX).collect();
+        let c: Vec<u64> = primes_cached(2 * n as u64, b, cnt + 2).into_iter().filter(|&p| p > 2 * ERR_MAX).collect();
         let p = *c.iter().find(|p| !out.contains(p))?;
         out.push(p);
     }
@@ -627,7 +799,19 @@ fn prime_chain(n: usize, bits: &[usize]) -> Option<Vec<u64>> {
 
 /// first prime = 1 mod 2n of `bits` bits that is not in `avoid`
 fn batching_prime(n: usize, bits: usize, avoid: &[u64]) -> Option<u64> {
-    primes_1_mod(2 * n as u64, bits, avoid.len() + 1).into_iter().find(|p| !avoid.contains(p))
+    primes_cached(2 * n as u64, bits, avoid.len() + 1).into_iter().find(|p| !avoid.contains(p))
+}
+
+/// `primes_1_mod`, memoised (the case lists ask for the same long chains again and again)
+fn primes_cached(factor: u64, bits: usize, count: usize) -> Vec<u64> {
+    static CACHE: std::sync::OnceLock<std::sync::Mutex<HashMap<(u64, usize, usize), Vec<u64>>>> = std::sync::OnceLock::new();
+    let cache = CACHE.get_or_init(|| std::sync::Mutex::new(HashMap::new()));
+    if let Some(v) = cache.lock().unwrap().get(&(factor, bits, count)) {
+        return v.clone();
+    }
+    let v = primes_1_mod(factor, bits, count);
+    cache.lock().unwrap().insert((factor, bits, count), v.clone());
+    v
 }
 
 fn multisets(vals: &[usize], k: usize) -> Vec<Vec<usize>> {
@@ -956,7 +1140,7 @@ fn ckks_noise(w: &World, li: usize, dec: &[u64], plain: &[u64]) -> Vec<BigI> {
     let l = &w.levels[li].lvl;
     let n = w.n;
     let diff: Vec<u64> = (0..l.moduli.len() * n).map(|x| sub_mod(dec[x], plain[x], l.moduli[x / n])).collect();
-    l.compose_centered(&l.coeff_form(&diff, true))
+    w.centered(li, &w.coeff_form(li, &diff, true))
 }
 
 /// Judge an encryption of zero at level li (any scheme).
@@ -972,7 +1156,7 @@ fn judge_zero(w: &World, li: usize, ct: &Ciphertext, public: bool) -> Result<u64
         return Ok(cl * 2 + ok as u64);
     }
     w.check_fresh_meta(li, ct, 1.0)?;
-    let ph = l.lvl.compose_centered(&w.phase(li, ct));
+    let ph = w.centered(li, &w.phase(li, ct));
     let mut cl = 0;
     for (j, p) in ph.iter().enumerate() {
         if !b.holds_for(p) {
@@ -1027,9 +1211,13 @@ fn judge_pure_key(w: &World, ct: &Ciphertext) -> Result<(), Bad> {
 }
 
 fn check_levels(c: &LCase, seed: u64) -> CaseOut {
+    check_levels_in("levels", c, seed, false)
+}
+
+fn check_levels_in(section: &str, c: &LCase, seed: u64, fast: bool) -> CaseOut {
     let tag = h64(&serde_json::to_string(c).unwrap());
-    let sname = format!("levels:{:?}", c.spec.scheme);
-    let w = match World::build(&c.spec, &c.noise, seed, tag) {
+    let sname = format!("{section}:{:?}", c.spec.scheme);
+    let w = match World::build_with(&c.spec, &c.noise, seed, tag, fast) {
         Ok(w) => w,
         Err(e) if e.starts_with("REFMODEL") || e.starts_with("panic") => return CaseOut::fail(format!("{sname}:setup"), "context and keys can be built for accepted parameters", e),
         Err(e) => return CaseOut::skip(&format!("library rejects the parameters: {e}")),
@@ -1138,14 +1326,18 @@ fn ct_diff(w: &World, li: usize, a: &Ciphertext, b: &Ciphertext, poly: usize) ->
     let n = w.n;
     let (pa, pb) = (a.poly(poly), b.poly(poly));
     let d: Vec<u64> = (0..l.moduli.len() * n).map(|x| sub_mod(pa[x], pb[x], l.moduli[x / n])).collect();
-    l.compose_centered(&l.coeff_form(&d, a.is_ntt_form()))
+    w.centered(li, &w.coeff_form(li, &d, a.is_ntt_form()))
 }
 
 fn check_uprng(c: &UCase, seed: u64) -> CaseOut {
+    check_uprng_in("uprng", c, seed, false)
+}
+
+fn check_uprng_in(section: &str, c: &UCase, seed: u64, fast: bool) -> CaseOut {
     let tag = h64(&serde_json::to_string(c).unwrap());
-    let sname = format!("uprng:{:?}", c.spec.scheme);
+    let sname = format!("{section}:{:?}", c.spec.scheme);
     let nc = NoiseCombo::new(Noise::Real, c.err, Noise::Real, c.err);
-    let w = match World::build(&c.spec, &nc, seed, tag) {
+    let w = match World::build_with(&c.spec, &nc, seed, tag, fast) {
         Ok(w) => w,
         Err(e) if e.starts_with("REFMODEL") || e.starts_with("panic") => return CaseOut::fail(format!("{sname}:setup"), "context and keys can be built", e),
         Err(e) => return CaseOut::skip(&format!("library rejects the parameters: {e}")),
@@ -1362,15 +1554,19 @@ fn scale_grid(qbits: usize, thorough: bool) -> Vec<f64> {
 }
 
 fn check_ckks(c: &KCase, seed: u64, thorough: bool) -> CaseOut {
+    check_ckks_in("ckks", c, seed, thorough)
+}
+
+fn check_ckks_in(section: &str, c: &KCase, seed: u64, thorough: bool) -> CaseOut {
     let tag = h64(&serde_json::to_string(c).unwrap());
     let w = match World::build(&c.spec, &c.noise, seed, tag) {
         Ok(w) => w,
-        Err(e) if e.starts_with("REFMODEL") || e.starts_with("panic") => return CaseOut::fail("ckks:setup", "context and keys can be built for accepted parameters", e),
+        Err(e) if e.starts_with("REFMODEL") || e.starts_with("panic") => return CaseOut::fail(format!("{section}:setup"), "context and keys can be built for accepted parameters", e),
         Err(e) => return CaseOut::skip(&format!("library rejects the parameters: {e}")),
     };
     let encoder = match guard(|| CKKSEncoder::new(w.kit.ctx.clone())) {
         Ok(e) => e,
-        Err(p) => return CaseOut::fail("ckks:encoder-new-panic", "CKKSEncoder::new succeeds", p),
+        Err(p) => return CaseOut::fail(format!("{section}:encoder-new-panic"), "CKKSEncoder::new succeeds", p),
     };
     let slots = w.n / 2;
     let vectors = slot_vectors(slots, thorough);
@@ -1378,7 +1574,7 @@ fn check_ckks(c: &KCase, seed: u64, thorough: bool) -> CaseOut {
     let mut refused = 0u64;
     let mut unjudged = 0u64;
     let mut classes = 0u64;
-    let fail = |k: String, e: String, o: String| CaseOut::fail(format!("ckks:{k}"), format!("{} noise {:?}: {e}", c.spec.label(), c.noise), o);
+    let fail = |k: String, e: String, o: String| CaseOut::fail(format!("{section}:{k}"), format!("{} noise {:?}: {e}", c.spec.label(), c.noise), o);
     for li in 0..w.levels.len() {
         let l = &w.levels[li];
         let k = l.lvl.moduli.len();
@@ -1590,6 +1786,634 @@ fn tinyprime_specs(thorough: bool) -> Vec<ParamSpec> {
 }
 
 // ------------------------------------------------------------------------------------------
+// production sizes: many primes (tiny N) and large N (few..many primes)
+// ------------------------------------------------------------------------------------------
+
+/// the existing oracles (schoolbook reference) on chains of 1..18 primes at N = 4 / 8
+#[derive(Serialize, Deserialize, Clone, Debug)]
+pub enum MCase {
+    Exact(XCase),
+    Levels(LCase),
+    Uprng(UCase),
+    Ckks(KCase),
+}
+
+fn check_many(c: &MCase, seed: u64) -> CaseOut {
+    match c {
+        MCase::Exact(x) => check_exact("manyprimes", x, seed),
+        MCase::Levels(l) => check_levels_in("manyprimes:levels", l, seed, false),
+        MCase::Uprng(u) => check_uprng_in("manyprimes:uprng", u, seed, false),
+        MCase::Ckks(k) => check_ckks_in("manyprimes:ckks", k, seed, false),
+    }
+}
+
+/// bit sizes of a chain of k primes following a repeating pattern
+fn pattern_bits(k: usize, pat: &[usize]) -> Vec<usize> {
+    (0..k).map(|i| pat[i % pat.len()]).collect()
+}
+
+/// all primes of 60 bits
+const PAT_A: &[usize] = &[60];
+/// mixed sizes, not monotone (a plain modulus of 21 bits lies above one prime and below the others)
+const PAT_B: &[usize] = &[60, 20, 50, 30, 40];
+/// ascending start (a plain modulus of 41 bits lies above the first prime)
+const PAT_C: &[usize] = &[40, 50, 60];
+
+fn log2(n: usize) -> usize {
+    n.trailing_zeros() as usize
+}
+
+/// a batching prime of at least `bits` bits (large enough for 2N | t-1 to have solutions)
+fn tbatch(n: usize, bits: usize, q: &[u64]) -> Option<u64> {
+    batching_prime(n, bits.max(log2(n) + 6), q)
+}
+
+/// plain moduli that go with a chain pattern: 60-bit batching prime where two data primes of 60 bits exist, a batching prime
+/// one bit above the smallest coefficient prime (BGV: multi-precision lift over k words; BFV: t > q_i), a small one otherwise
+fn ts_for(n: usize, q: &[u64], pat: &[usize], sp: bool, every: bool) -> Vec<u64> {
+    let data = if q.len() == 1 || sp { q.len() } else { q.len() - 1 };
+    let minbits = 64 - q.iter().min().unwrap().leading_zeros() as usize;
+    let small = if n <= 8 { Some(17) } else { tbatch(n, 20, q) };
+    let mut v: Vec<Option<u64>> = vec![];
+    if pat == PAT_A {
+        v.push(if data >= 2 { batching_prime(n, 60, q) } else { small });
+        if every {
+            v.push(small);
+        }
+    } else {
+        v.push(if data >= 2 && minbits < 59 { tbatch(n, minbits + 1, q) } else { small });
+        if every {
+            v.push(small);
+            if data >= 3 {
+                v.push(batching_prime(n, 60, q));
+            }
+        }
+    }
+    let mut v: Vec<u64> = v.into_iter().flatten().filter(|&t| gcd_all(t, q)).collect();
+    v.sort();
+    v.dedup();
+    v
+}
+
+const KS_EDGE: [usize; 8] = [1, 2, 7, 8, 9, 16, 17, 18];
+
+/// (N, chain, pattern) of the many-primes families: N = 4 with every k = 1..18, N = 8 with the k around 8 and 16 (thorough: every k)
+fn many_chains(thorough: bool) -> Vec<(usize, Vec<u64>, &'static [usize])> {
+    let mut out = vec![];
+    for n in [4usize, 8] {
+        for k in 1..=18usize {
+            if n == 8 && !thorough && ![8, 9, 16, 17].contains(&k) {
+                continue;
+            }
+            for pat in [PAT_A, PAT_B] {
+                // (quick: the mixed-size chain at the k next to 1, 8 and 16 only)
+                if pat == PAT_B && (k == 1 || (!thorough && (n == 8 || !KS_EDGE.contains(&k)))) {
+                    continue;
+                }
+                if let Some(q) = prime_chain(n, &pattern_bits(k, pat)) {
+                    out.push((n, q, pat));
+                }
+            }
+        }
+    }
+    out
+}
+
+fn many_cases(thorough: bool) -> Vec<MCase> {
+    use Noise::*;
+    let ext = NoiseCombo::new(AllMax, AllMin, AllMax, AllMax);
+    let real = NoiseCombo::new(Real, Real, Real, Real);
+    let mut cases: Vec<(usize, MCase)> = vec![];
+    for (n, q, pat) in many_chains(thorough) {
+        let k = q.len();
+        let edge = KS_EDGE.contains(&k);
+        let weight = n * k;
+        for sp in [false, true] {
+            if sp && k == 1 {
+                continue;
+            }
+            // round trips of the boundary plaintexts in all 7 modes
+            for scheme in [Scheme::BFV, Scheme::BGV] {
+                for t in ts_for(n, &q, pat, sp, thorough) {
+                    let combos: Vec<NoiseCombo> = if thorough { combos_small() } else if edge { vec![ext, real] } else { vec![ext] };
+                    for nc in combos {
+                        let mut s = ParamSpec::new(scheme, n, q.clone(), t);
+                        s.special_enc = sp;
+                        cases.push((weight, MCase::Exact(XCase { spec: s, noise: nc, alpha: Alpha::EdgeFew, umodes: true })));
+                    }
+                }
+            }
+            // encryptions of zero at every level, generator variants
+            if thorough || edge || n == 4 {
+                for scheme in Scheme::all() {
+                    let t = if scheme == Scheme::CKKS { 0 } else { 17 };
+                    let mut s = ParamSpec::new(scheme, n, q.clone(), t);
+                    s.special_enc = sp;
+                    let combos: Vec<NoiseCombo> = if thorough { combos_small() } else if edge { vec![ext, real] } else { vec![ext] };
+                    for nc in combos {
+                        cases.push((weight, MCase::Levels(LCase { spec: s.clone(), noise: nc })));
+                    }
+                    if thorough || (edge && pat == PAT_A) {
+                        for err in if thorough { vec![Zero, Real, AllMax] } else { vec![Zero, AllMax] } {
+                            cases.push((weight, MCase::Uprng(UCase { spec: s.clone(), err })));
+                        }
+                    }
+                }
+            }
+            // the full CKKS grid (every level x scale x slot vector x mode) is expensive with 17 levels: boundary k only, thorough only
+            if thorough && n == 4 && [8usize, 9, 16, 17].contains(&k) && pat == PAT_A {
+                let mut s = ParamSpec::new(Scheme::CKKS, n, q.clone(), 0);
+                s.special_enc = sp;
+                for nc in [ext, real] {
+                    cases.push((weight, MCase::Ckks(KCase { spec: s.clone(), noise: nc })));
+                }
+            }
+        }
+    }
+    cases.sort_by_key(|c| c.0);
+    cases.into_iter().map(|c| c.1).collect()
+}
+
+#[derive(Serialize, Deserialize, Clone, Copy, Debug, PartialEq, Eq, Hash)]
+pub enum SKind {
+    /// round trips of the structured plaintext / slot-vector family
+    Messages,
+    /// the 8 encrypt_zero forms at every level of the chain
+    Zeros,
+}
+
+#[derive(Serialize, Deserialize, Clone, Debug)]
+pub struct SCase {
+    pub spec: ParamSpec,
+    pub noise: NoiseCombo,
+    pub kind: SKind,
+    pub family: Fam,
+    /// true: every plaintext in all 7 modes; false: one public-key and one secret-key mode per plaintext, in rotation
+    pub all_modes: bool,
+    /// this case handles the family members with index = part (mod parts)
+    pub part: u32,
+    pub parts: u32,
+}
+
+#[derive(Serialize, Deserialize, Clone, Copy, Debug, PartialEq, Eq, Hash)]
+pub enum Fam {
+    /// a monomial at EVERY position 0..N-1 and a dense plaintext of EVERY length 0..N (CKKS: every unit slot, every vector length)
+    Every,
+    /// positions / lengths at the marks {0,1,2, 2^j-1, 2^j, 2^j+1, N-2, N-1, N}
+    Marks,
+    /// a dozen plaintexts: empty, zero, 1, thr*X^(N/2) (short), (t-1)*X^(N-1), dense of length N/2+1 and N, alternating, ramp, generic
+    Few,
+}
+
+/// boundary positions below n: 0,1,2, every power of two with its neighbours, n-2, n-1
+fn marks(n: usize) -> Vec<usize> {
+    let mut v: Vec<usize> = vec![0, 1, 2, n.saturating_sub(2), n.saturating_sub(1)];
+    let mut b = 4usize;
+    while b <= n {
+        v.extend([b - 1, b, b + 1]);
+        b *= 2;
+    }
+    v.retain(|&x| x < n);
+    v.sort();
+    v.dedup();
+    v
+}
+
+/// structured BFV/BGV plaintext family (coefficient vectors; the vector length is the plaintext's coeff_count)
+fn plaintexts_sized(n: usize, t: u64, family: Fam) -> Vec<Vec<u64>> {
+    let vals: Vec<u64> = boundary_values(t).into_iter().filter(|&v| v != 0).collect();
+    let thr = (t + 1) >> 1;
+    let mut out: Vec<Vec<u64>> = vec![vec![], vec![0], vec![0; n]];
+    let generic = |j: usize| ((j as u128 * j as u128 * 7919 + 13 * j as u128 + 5) % t as u128) as u64;
+    if family == Fam::Few {
+        out.push(vec![1]);
+        let mut u = vec![0u64; n / 2 + 1];
+        u[n / 2] = thr % t;
+        out.push(u);
+        let mut u = vec![0u64; n];
+        u[n - 1] = t - 1;
+        out.push(u);
+        out.push(vec![t - 1; n / 2 + 1]);
+        out.push(vec![t - 1; n]);
+        out.push((0..n).map(|i| if i % 2 == 0 { t - 1 } else { thr % t }).collect());
+        out.push((0..n).map(|i| ((i as u128 * (t - 1) as u128) / (n as u128 - 1).max(1)) as u64).collect());
+        out.push((0..n).map(generic).collect());
+        out.sort();
+        out.dedup();
+        return out;
+    }
+    let complete = family == Fam::Every;
+    let positions: Vec<usize> = if complete { (0..n).collect() } else { marks(n) };
+    for (x, &i) in positions.iter().enumerate() {
+        // short form (coeff_count = i+1) and full-length form
+        let mut u = vec![0u64; i + 1];
+        u[i] = vals[x % vals.len()];
+        out.push(u.clone());
+        u[i] = vals[(x + 1) % vals.len()];
+        u.resize(n, 0);
+        out.push(u);
+    }
+    let lengths: Vec<usize> = if complete { (1..=n).collect() } else { marks(n + 1).into_iter().filter(|&l| l > 0).collect() };
+    for &l in &lengths {
+        out.push(vec![t - 1; l]);
+    }
+    for l in marks(n + 1).into_iter().filter(|&l| l > 0) {
+        out.push((0..l).map(generic).collect());
+    }
+    for &v in &vals {
+        out.push(vec![v; n]);
+    }
+    out.push((0..n).map(|i| if i % 2 == 0 { t - 1 } else { thr % t }).collect());
+    out.push((0..n).map(|i| if i % 2 == 0 { thr - 1 } else { t - 1 }).collect());
+    out.push((0..n).map(|i| ((i as u128 * (t - 1) as u128) / (n as u128 - 1).max(1)) as u64).collect());
+    out.sort();
+    out.dedup();
+    out
+}
+
+/// structured CKKS slot-vector family
+fn slot_family(slots: usize, family: Fam) -> Vec<Vec<Complex<f64>>> {
+    if family == Fam::Few {
+        return slot_short(slots);
+    }
+    let complete = family == Fam::Every;
+    let a = slot_values(false);
+    let zero = Complex::new(0.0, 0.0);
+    let mut out: Vec<Vec<Complex<f64>>> = vec![vec![]];
+    let positions: Vec<usize> = if complete { (0..slots).collect() } else { marks(slots) };
+    for (x, &i) in positions.iter().enumerate() {
+        let mut u = vec![zero; i + 1];
+        u[i] = a[1 + x % (a.len() - 1)];
+        out.push(u.clone());
+        if i + 1 < slots {
+            u[i] = a[1 + (x + 1) % (a.len() - 1)];
+            u.resize(slots, zero);
+            out.push(u);
+        }
+    }
+    let lengths: Vec<usize> = if complete { (1..=slots).collect() } else { marks(slots + 1).into_iter().filter(|&l| l > 0).collect() };
+    for l in lengths {
+        out.push(vec![Complex::new(1.5, -0.25); l]);
+    }
+    for &v in &a {
+        out.push(vec![v; slots]);
+    }
+    out.push((0..slots).map(|i| a[1 + i % (a.len() - 1)]).collect());
+    out
+}
+
+/// the few vectors used at the levels between the first and the last
+fn slot_short(slots: usize) -> Vec<Vec<Complex<f64>>> {
+    let a = slot_values(false);
+    let zero = Complex::new(0.0, 0.0);
+    let mut last = vec![zero; slots];
+    last[slots - 1] = Complex::new(0.0, 1.0);
+    vec![vec![], vec![Complex::new(-1.0, 0.0)], last, vec![Complex::new(1.5, -0.25); slots], (0..slots).map(|i| a[1 + i % (a.len() - 1)]).collect()]
+}
+
+fn describe_u64s(v: &[u64]) -> String {
+    if v.len() <= 16 {
+        return format!("{v:?}");
+    }
+    let nz: Vec<(usize, u64)> = v.iter().enumerate().filter(|(_, &x)| x != 0).map(|(i, &x)| (i, x)).collect();
+    format!("coeff_count {} with {} non-zero coefficients, the first (position, value): {:?}, the last: {:?}", v.len(), nz.len(), &nz[..nz.len().min(3)], nz.last())
+}
+
+fn describe_slots(z: &[Complex<f64>]) -> String {
+    if z.len() <= 8 {
+        return format!("{z:?}");
+    }
+    let nz: Vec<(usize, Complex<f64>)> = z.iter().enumerate().filter(|(_, x)| x.norm() != 0.0).map(|(i, &x)| (i, x)).collect();
+    format!("{} values with {} non-zero, the first (slot, value): {:?}, the last: {:?}", z.len(), nz.len(), &nz[..nz.len().min(3)], nz.last())
+}
+
+const MODES_PUB: [Mode; 3] = [Mode::Pk, Mode::PkDest, Mode::PkU];
+const MODES_SYM: [Mode; 4] = [Mode::Sk, Mode::SkSeed, Mode::SkU, Mode::SkSeedU];
+
+fn modes_of(c: &SCase, idx: usize) -> Vec<Mode> {
+    if c.all_modes {
+        MODES.to_vec()
+    } else {
+        vec![MODES_PUB[idx % 3], MODES_SYM[idx % 4]]
+    }
+}
+
+/// When the reference cannot even read the secret key: does a plain encrypt -> decrypt round trip still work?
+fn blackbox_roundtrip(c: &SCase, seed: u64, tag: u64) -> Option<Bad> {
+    if c.spec.scheme == Scheme::CKKS {
+        return None;
+    }
+    he::env(seed, tag, c.noise.ks.mode(), c.noise.ke.mode());
+    let kit = match guard(|| Kit::new(&c.spec)) {
+        Ok(Ok(k)) => k,
+        _ => return None,
+    };
+    let (n, t) = (c.spec.n, c.spec.t);
+    let mut v = vec![0u64; n];
+    v[0] = 1;
+    v[n - 1] = t - 1;
+    let pt = kit.plain(&v);
+    for (name, public) in [("Pk", true), ("Sk", false)] {
+        he::env(seed, tag ^ 1, c.noise.eu.mode(), c.noise.ee.mode());
+        let r = guard(|| {
+            let ct = if public {
+                kit.enc.encrypt_new(&pt)
+            } else {
+                let mut d = Ciphertext::new();
+                kit.enc.encrypt_symmetric(&pt, &mut d);
+                d
+            };
+            kit.dec.decrypt_new(&ct)
+        });
+        match r {
+            Ok(d) => {
+                if d.data().as_slice() != v.as_slice() {
+                    return Some(bad(format!("{name}:wrong-plaintext"), format!("1 + (t-1)*X^(N-1) decrypts to itself ({})", c.spec.label()), describe_u64s(d.data())));
+                }
+            }
+            Err(p) => return Some(bad(format!("{name}:roundtrip-panic:{}", panic_class(&p)), "encrypt and decrypt succeed", p)),
+        }
+    }
+    None
+}
+
+fn check_sizes(c: &SCase, seed: u64) -> CaseOut {
+    if c.kind == SKind::Zeros {
+        return check_levels_in("sizes:zero", &LCase { spec: c.spec.clone(), noise: c.noise }, seed, true);
+    }
+    let tag = h64(&serde_json::to_string(c).unwrap());
+    let sname = format!("sizes:{:?}", c.spec.scheme);
+    if c.spec.scheme != Scheme::CKKS && !maybe_valid(&c.spec, &c.noise) {
+        return CaseOut::skip("not noise-valid in any mode (a-priori, from the parameters alone)");
+    }
+    let w = match World::build_with(&c.spec, &c.noise, seed, tag, true) {
+        Ok(w) => w,
+        Err(e) if e.starts_with("REFMODEL") => {
+            // the secret key (or its table) is not what the reference expects: classify by a black-box round trip
+            return match blackbox_roundtrip(c, seed, tag) {
+                Some((k, ex, ob)) => CaseOut::fail(format!("{sname}:{k}"), format!("{ex} [noise {:?}; reference: {e}]", c.noise), ob),
+                None => CaseOut::fail(format!("{sname}:setup"), format!("{}: the secret key is the transform of a ternary polynomial in the order defined by the level's own tables", c.spec.label()), e),
+            };
+        }
+        Err(e) if e.starts_with("panic") => return CaseOut::fail(format!("{sname}:setup"), "context and keys can be built for accepted parameters", e),
+        Err(e) => return CaseOut::skip(&format!("library rejects the parameters: {e}")),
+    };
+    if w.sch == Sch::Ckks {
+        return sizes_ckks(c, &w, seed, tag);
+    }
+    let li = w.first;
+    let (bpk, okpk) = mode_valid(&w, li, true, &BigU::zero());
+    let (bsk, oksk) = mode_valid(&w, li, false, &BigU::zero());
+    if !okpk && !oksk {
+        return CaseOut::skip("not noise-valid in any mode");
+    }
+    let pts = plaintexts_sized(w.n, w.t, c.family);
+    let mut steps = 0u64;
+    let mut maxclass = 0u64;
+    for (pi, v) in pts.iter().enumerate() {
+        if pi as u32 % c.parts.max(1) != c.part {
+            continue;
+        }
+        let pt = if v.is_empty() { Plaintext::new() } else { w.kit.plain(v) };
+        let mut m = v.clone();
+        m.resize(w.n, 0);
+        for mode in modes_of(c, pi) {
+            let (b, ok) = if mode.public() { (&bpk, okpk) } else { (&bsk, oksk) };
+            if !ok {
+                continue;
+            }
+            let item = h64(&(tag, pi as u64, mode));
+            match encrypt_mode(&w, mode, &pt, seed, item, &c.noise).and_then(|ct| judge_exact(&w, li, &ct, &m, b, true)) {
+                Ok(cl) => {
+                    steps += 1;
+                    maxclass = maxclass.max(cl);
+                }
+                Err((k, e, o)) => {
+                    let o = if o.len() > 600 { format!("{} ...", &o[..600]) } else { o };
+                    let e = if e.len() > 600 { format!("{} ...", &e[..600]) } else { e };
+                    return CaseOut::fail(format!("{sname}:{mode:?}:{k}"), format!("plaintext {} ({}; noise {:?}): {e}", describe_u64s(v), c.spec.label(), c.noise), o);
+                }
+            }
+        }
+    }
+    if steps == 0 {
+        return CaseOut::skip("no family member in this part is noise-valid");
+    }
+    let fl = w.kit.ctx.first_context_data().unwrap().qualifiers().using_fast_plain_lift;
+    CaseOut::pass(true, h64(&(c.spec.scheme, okpk, oksk, fl, w.first_level().dropped.is_some(), w.levels.len(), log2(w.n), maxclass / 4)), steps)
+}
+
+fn sizes_ckks(c: &SCase, w: &World, seed: u64, tag: u64) -> CaseOut {
+    let encoder = match guard(|| CKKSEncoder::new(w.kit.ctx.clone())) {
+        Ok(e) => e,
+        Err(p) => return CaseOut::fail("sizes:CKKS:encoder-new-panic", "CKKSEncoder::new succeeds", p),
+    };
+    let slots = w.n / 2;
+    let family = slot_family(slots, c.family);
+    let short = slot_short(slots);
+    let mut steps = 0u64;
+    let mut refused = 0u64;
+    let mut unjudged = 0u64;
+    let mut classes = 0u64;
+    let mut gi = 0usize;
+    let fail = |k: String, e: String, o: String| CaseOut::fail(format!("sizes:CKKS:{k}"), format!("{} noise {:?}: {e}", c.spec.label(), c.noise), if o.len() > 600 { format!("{} ...", &o[..600]) } else { o });
+    let last = w.levels.len() - 1;
+    for li in 0..w.levels.len() {
+        let l = &w.levels[li];
+        if l.pure_key {
+            continue;
+        }
+        let k = l.lvl.moduli.len();
+        let full = li == w.first || li == last;
+        // (a scale must stay a finite f64 with room for the values)
+        let hi = (l.lvl.q.bits() as i32 - 2).min(1000);
+        if hi < 1 {
+            continue;
+        }
+        let mut scales = vec![2f64.powi(hi.min(20))];
+        if full && hi > 20 {
+            scales.push(2f64.powi(hi));
+        }
+        for (si, &scale) in scales.iter().enumerate() {
+            for (vi, z) in (if full { &family } else { &short }).iter().enumerate() {
+                gi += 1;
+                if (gi - 1) as u32 % c.parts.max(1) != c.part {
+                    continue;
+                }
+                let p = match guard(|| encoder.encode_c64_array_new(z, Some(l.id), scale)) {
+                    Ok(p) => p,
+                    Err(_) => {
+                        refused += 1;
+                        continue;
+                    }
+                };
+                let zmax = z.iter().map(|x| x.norm()).fold(0.0f64, f64::max);
+                // |coefficient| <= scale * (2/N) * sum|z_i| + 1/2 <= scale * max|z| + 1/2 (the 2^-10 margin of the validity test absorbs the f64 error)
+                let mut mmax = if (scale * zmax).is_finite() { ceil_to_bigu(scale * zmax) } else { ceil_to_bigu(scale).mul(&ceil_to_bigu(zmax)) }.add(&BigU::one());
+                let pcoef = w.coeff_form(li, p.data(), true);
+                if w.n <= 16 {
+                    mmax = w.centered(li, &pcoef).iter().map(|x| x.mag.clone()).max().unwrap().max(mmax);
+                }
+                let what_in = format!("level {li} scale {scale:e} values {}", describe_slots(z));
+                // levels between the first and the last: one public-key and one secret-key mode in rotation
+                let modes = if full { modes_of(c, gi) } else { vec![MODES_PUB[gi % 3], MODES_SYM[gi % 4]] };
+                for mode in modes {
+                    let b = w.bound(li, mode.public());
+                    if !noise_valid(Sch::Ckks, &b, 0, &l.lvl.q, &mmax) {
+                        unjudged += 1;
+                        continue;
+                    }
+                    let item = h64(&(tag, li as u64, si as u64, vi as u64, mode));
+                    let what = format!("{mode:?}");
+                    let ct = match encrypt_mode_at(w, li, mode, &p, seed, item, &c.noise).and_then(|ct| w.check_fresh_meta(li, &ct, scale).map(|_| ct)) {
+                        Ok(ct) => ct,
+                        Err((kk, e, o)) => return fail(format!("{what}:{kk}"), format!("{what_in}: {e}"), o),
+                    };
+                    // exact phase noise c0 + c1*s - plaintext
+                    let ph = w.phase(li, &ct);
+                    let diff: Vec<Vec<u64>> = (0..k).map(|i| (0..w.n).map(|j| sub_mod(ph[i][j], pcoef[i][j], l.lvl.moduli[i])).collect()).collect();
+                    for (j, x) in w.centered(li, &diff).iter().enumerate() {
+                        if !b.holds_for(x) {
+                            return fail(format!("{what}:noise-exceeds-apriori-bound"), format!("{what_in}: |c0 + c1*s - encoded| <= {:.2} per coefficient", b.to_f64()), format!("coefficient {j}: {:.1}", x.to_f64()));
+                        }
+                    }
+                    let dec = match guard(|| w.kit.dec.decrypt_new(&ct)) {
+                        Ok(d) => d,
+                        Err(pn) => return fail(format!("{what}:decrypt-panic:{}", panic_class(&pn)), format!("{what_in}: decryption succeeds"), pn),
+                    };
+                    if *dec.parms_id() != l.id || dec.scale().to_bits() != scale.to_bits() || dec.coeff_count() != k * w.n || dec.data().len() != k * w.n || !dec.is_valid_for(&w.kit.ctx) {
+                        return fail(format!("{what}:decrypted-metadata"), format!("level {li} scale {scale}: plaintext at the same level with the same scale, N*k words, valid"), format!("level_matches={} scale={} coeff_count={}", *dec.parms_id() == l.id, dec.scale(), dec.coeff_count()));
+                    }
+                    for (j, x) in ckks_noise(w, li, dec.data(), p.data()).iter().enumerate() {
+                        if !b.holds_for(x) {
+                            return fail(format!("{what}:noise-exceeds-apriori-bound"), format!("{what_in}: |decrypted - encoded| <= {:.2} per coefficient", b.to_f64()), format!("coefficient {j}: {:.1}", x.to_f64()));
+                        }
+                        classes = classes.max(x.mag.bits() as u64);
+                    }
+                    if c.noise.all_zero() && dec.data() != p.data() {
+                        return fail(format!("{what}:zero-noise-not-exact"), format!("{what_in}: with all-zero noise the decrypted plaintext equals the encoded one"), "differs".to_string());
+                    }
+                    let out = match guard(|| encoder.decode_new(&dec)) {
+                        Ok(o) => o,
+                        Err(pn) => return fail(format!("{what}:decode-panic:{}", panic_class(&pn)), format!("{what_in}: decode succeeds"), pn),
+                    };
+                    let tol = w.n as f64 * (b.to_f64() + 0.5) / scale + (zmax + 1.0) * w.n as f64 * 2f64.powi(-40);
+                    for sidx in 0..slots {
+                        let want = z.get(sidx).copied().unwrap_or(Complex::new(0.0, 0.0));
+                        let err = (out[sidx] - want).norm();
+                        if !(err <= tol) {
+                            return fail(format!("{what}:slot-error"), format!("{what_in}: slot {sidx} within {tol:e} of {want}"), format!("{} (error {err:e})", out[sidx]));
+                        }
+                    }
+                    steps += 1;
+                }
+            }
+        }
+    }
+    if steps == 0 {
+        return CaseOut::skip("no (level, scale, value) of this part is noise-valid");
+    }
+    CaseOut::pass(true, h64(&(w.levels.len(), w.first, log2(w.n), refused > 0, unjudged > 0, classes / 4)), steps)
+}
+
+/// the `sizes` section: (N, chain pattern, k, family, all modes?, parts, noise scripts) x special-prime flag x scheme x plain modulus
+fn sizes_cases(thorough: bool) -> Vec<SCase> {
+    use Noise::*;
+    let extp = NoiseCombo::new(AllMax, AllMin, AllMax, AllMax);
+    let extm = NoiseCombo::new(AllMax, AllMax, AllMax, AllMin);
+    let alt = NoiseCombo::new(Alt, AllMin, Alt, Alt);
+    let real = NoiseCombo::new(Real, Real, Real, Real);
+    let mut fam: Vec<(usize, &'static [usize], usize, Fam, bool, u32, Vec<NoiseCombo>)> = vec![];
+    // (a) many primes at tiny N, fast reference next to the schoolbook one
+    for (n, q, pat) in many_chains(thorough) {
+        let k = q.len();
+        let noise = if thorough { vec![extp, extm, alt, real] } else if KS_EDGE.contains(&k) && pat == PAT_A { vec![extp, real] } else { vec![extp] };
+        fam.push((n, pat, k, Fam::Every, true, 1, noise));
+    }
+    // (b) every power of two, few primes
+    for n in [16usize, 32, 64, 128, 256, 512, 1024] {
+        if n == 512 && !thorough {
+            continue;
+        }
+        let every = n <= if thorough { 1024 } else { 128 };
+        let parts = if every { (n / 128).max(1) as u32 } else { 1 };
+        for (pat, k) in [(PAT_A, 2usize), (PAT_C, 3)] {
+            let noise = if thorough { vec![extp, extm, real] } else if [128usize, 256].contains(&n) { vec![extp, real] } else { vec![extp] };
+            fam.push((n, pat, k, if every { Fam::Every } else { Fam::Marks }, if every { n <= 64 } else { thorough }, parts, noise));
+        }
+        if thorough {
+            fam.push((n, PAT_A, 3, Fam::Marks, true, 1, vec![extp, real]));
+            fam.push((n, PAT_B, 6, Fam::Marks, true, 1, vec![extm]));
+        }
+    }
+    // (c) N and the number of primes across their boundaries together
+    for (n, ks) in [(128usize, vec![9usize, 17]), (1024, vec![9, 10, 17])] {
+        for k in ks {
+            if thorough {
+                fam.push((n, PAT_A, k, Fam::Marks, true, 2, vec![extp, real]));
+                fam.push((n, PAT_B, k, Fam::Marks, false, 1, vec![extm]));
+            } else {
+                fam.push((n, PAT_A, k, Fam::Few, true, 1, vec![extp]));
+            }
+        }
+    }
+    // (d) production degrees
+    if thorough {
+        for n in [2048usize, 4096, 8192, 16384] {
+            if n <= 4096 {
+                fam.push((n, PAT_A, 2, Fam::Every, false, (n / 128) as u32, vec![extp]));
+            }
+            for (pat, k) in [(PAT_A, 2usize), (PAT_C, 3), (PAT_B, 5), (PAT_A, 9), (PAT_A, 10)] {
+                if n == 16384 && k == 9 {
+                    continue;
+                }
+                fam.push((n, pat, k, Fam::Marks, false, if n * k >= 40000 { 4 } else { 1 }, if k <= 3 { vec![extp, real] } else { vec![extp] }));
+            }
+        }
+        // every mode on the same plaintexts at the largest sizes
+        for n in [8192usize, 16384] {
+            for k in [2usize, 10] {
+                fam.push((n, PAT_A, k, Fam::Few, true, 1, vec![extm]));
+            }
+        }
+        fam.push((4096, PAT_A, 17, Fam::Marks, false, 4, vec![extp]));
+        fam.push((2048, PAT_B, 16, Fam::Marks, false, 2, vec![extm]));
+    }
+    let mut cases: Vec<(usize, SCase)> = vec![];
+    for (n, pat, k, family, all_modes, parts, noise) in fam {
+        let Some(q) = prime_chain(n, &pattern_bits(k, pat)) else { continue };
+        for sp in [false, true] {
+            if sp && (k == 1 || (n >= 2048 && k > 3) || (!thorough && n >= 1024 && k > 3)) {
+                continue;
+            }
+            let mut specs: Vec<ParamSpec> = vec![];
+            for scheme in [Scheme::BFV, Scheme::BGV] {
+                for t in ts_for(n, &q, pat, sp, thorough && n <= 1024 && k <= 3) {
+                    specs.push(ParamSpec::new(scheme, n, q.clone(), t));
+                }
+            }
+            specs.push(ParamSpec::new(Scheme::CKKS, n, q.clone(), 0));
+            for mut s in specs {
+                s.special_enc = sp;
+                for nc in &noise {
+                    // CKKS: the complete family has N/2 unit slots and N/2 lengths at two levels and two scales
+                    let parts = if s.scheme == Scheme::CKKS && family == Fam::Every { parts.max((n / 64) as u32) } else { parts };
+                    for part in 0..parts {
+                        cases.push((n * k, SCase { spec: s.clone(), noise: *nc, kind: SKind::Messages, family, all_modes, part, parts }));
+                    }
+                    cases.push((n * k, SCase { spec: s.clone(), noise: *nc, kind: SKind::Zeros, family: Fam::Few, all_modes: true, part: 0, parts: 1 }));
+                }
+            }
+        }
+    }
+    // the same (spec, noise, Zeros) may come from two families
+    let mut seen = std::collections::HashSet::new();
+    cases.retain(|c| seen.insert(serde_json::to_string(&c.1).unwrap()));
+    cases.sort_by_key(|c| c.0);
+    cases.into_iter().map(|c| c.1).collect()
+}
+
+// ------------------------------------------------------------------------------------------
 // sections
 // ------------------------------------------------------------------------------------------
 
@@ -1731,8 +2555,40 @@ pub fn sections(cfg: &RunCfg) -> Vec<Box<dyn AnySection>> {
         .deadline(Duration::from_secs(120))
         .share(0.3),
     );
+    // (7) chains of 1..18 primes at N = 4 / 8, existing oracles
+    let cases = many_cases(thorough);
+    if std::env::var("VERIF_COUNTS").is_ok() {
+        eprintln!("[C01] section manyprimes: {} cases enumerated", cases.len());
+    }
+    v.push(
+        E1::new(
+            "manyprimes",
+            "chains of k = 1..18 coefficient primes (every k at N = 4; k in {8,9,16,17} at N = 8, every k thorough), all 60-bit and (N = 4, k in {2,7,8,9,16,17,18}; every N, k thorough) mixed 60/20/50/30/40-bit, special-prime flag on/off, schoolbook reference: BFV/BGV boundary plaintexts (unit monomials x boundary values, short and full length, constant / alternating / ramp) x 7 modes with a 60-bit batching plain modulus, one a bit above the smallest prime (multi-precision lift over k-1 words) or 17; the 8 encrypt_zero forms at EVERY one of the k levels in 3 schemes; the *_with_u_prng laws; noise scripts +-extremal and real (4 thorough); thorough: the full CKKS grid for k in {8,9,16,17}",
+            cases.into_iter(),
+            move |c: &MCase| check_many(c, seed),
+        )
+        .deadline(Duration::from_secs(180))
+        .share(0.4),
+    );
+
+    // (8) production sizes with the O(N log N) reference
+    let cases = sizes_cases(thorough);
+    if std::env::var("VERIF_COUNTS").is_ok() {
+        eprintln!("[C01] section sizes: {} cases enumerated", cases.len());
+    }
+    v.push(
+        E1::new(
+            "sizes",
+            "BFV/BGV/CKKS with the fast reference (O(N log N) phase, exact; run next to the schoolbook one for N <= 16): (a) N = 4 (8) x k = 1..18 primes, every monomial position and every plaintext length, 7 modes; (b) N = 16..1024 (every power of two; 512 thorough only) x chains 60,60 and 40,50,60: a boundary-valued monomial at EVERY position and a dense plaintext of EVERY length 0..N for N <= 128 (thorough: N <= 1024, and N = 2048, 4096 with 60,60), at the marks {0,1,2,2^j-1,2^j,2^j+1,N-2,N-1,N} above, + constant / alternating / ramp / generic plaintexts; (c) N in {128,1024} x k in {9,10,17} primes (quick: a dozen plaintexts x 7 modes, N = 1024 without the special-prime flag; thorough: marks); thorough (d) N in {2048,4096,8192,16384} x k in {2,3,5,9,10}, 4096 x 17, 2048 x 16; plain moduli: 60-bit batching prime (>= 2 data primes), batching prime one bit above the smallest q_i, ~20-bit batching prime; special-prime flag on/off; modes: all 7 (marks) or one public-key + one secret-key mode in rotation (every-position families above N = 64, marks at N >= 2048 and at N = 256..1024 quick; all 7 on a dozen plaintexts at N = 8192, 16384 x k in {2,10}); CKKS: unit slots / vector lengths / constants at the first and the last level x scales {2^20, 2^(log q - 2)}, 5 vectors x 2 modes in rotation at every other level; the 8 encrypt_zero forms at EVERY level; extremal noise scripts (+ real)",
+            cases.into_iter(),
+            move |c: &SCase| check_sizes(c, seed),
+        )
+        .batch(1)
+        .deadline(Duration::from_secs(900))
+        .share(0.7),
+    );
     // cheap sections first, so that an overloaded machine cuts the big sweeps (simplest-first inside) rather than whole sections
-    let order = ["tinyprime", "uprng", "levels", "ckks", "tiny_all", "params"];
+    let order = ["tinyprime", "uprng", "levels", "manyprimes", "sizes", "ckks", "tiny_all", "params"];
     v.sort_by_key(|s| order.iter().position(|o| *o == s.name()).unwrap_or(order.len()));
     v
 }
